@@ -26,6 +26,11 @@ def run(ctx):
     r = tlc_mc(ctx, SD, "NodeSearchI", "mc_nodesearch_neg.cfg", workers=8, coverage=False, timeout=3000, expect_ok=False, cfg_text=NS % (5, "lower_returns_on_match"))
     if r["ok"] or " is violated" not in r["out"]:
         raise InternalError("negative self-test: NodeSearchI with find_lower returning on the first match is not refuted")
+    # the search-free form of a range insertion used by Trace_Ordered accepts exactly what the step-by-step definition accepts
+    for (mu, im) in (("TRUE", "TRUE"), ("FALSE", "TRUE"), ("TRUE", "FALSE")):
+        tlc_mc(ctx, SD, "MC_RangeEq", "mc_rangeeq_%s_%s.cfg" % (mu, im), workers=8, coverage=False, timeout=3000,
+               cfg_text="CONSTANTS Multi = %s\n IsMap = %s\n Desc = FALSE\n Keys = {1, 2}\n MaxS = %d\n MaxE = %d\nSPECIFICATION Spec\nINVARIANT Equivalent\nCHECK_DEADLOCK FALSE\n" %
+               (mu, im, 2 if quick else 3, 3))
     lines, header = histories(ctx, rng, quick)
     for ln in lines:
         ctx.count_case(ln, nontrivial=len(ln.split()) >= 5)
